@@ -92,7 +92,10 @@ def work(job):
         res["cases"] += 1
         res["states"] = case.nstates
         reps, _ = inputs.byte_classes(case.dfa)
-        if len(reps) > 40:
+        if len(optsets) > 4 and case.nstates <= 24:
+            # thorough tier, small machine: every byte, not a representative of each class
+            reps = list(range(256))
+        elif len(reps) > 40:
             reps = rng.sample(reps, 40)
         ctxs = contexts(case)
         on_demand = case.flags["ALLOCATE_STR_SPACE_DYNAMIC_ON_DEMAND"]
@@ -200,7 +203,7 @@ def main():
             ck.samples.append({"program": r["name"], "option_sets": r["cases"], "segments_compared": r["steps"]})
     ck.finish({"evaluations": st["single_steps_and_walk_segments"], "distinct_nontrivial": len(distinct),
                "traces_validated_against_impl": st["single_steps_and_walk_segments"],
-               "rule": "every (state, byte-class representative or end, data context) of every accepted program under each option set, plus 12 random walks; distinct programs by source hash with at least 3 states",
+               "rule": "every (state, byte-class representative [thorough, machines up to 24 states: every byte] or end, data context) of every accepted program under each option set, plus 12 random walks; distinct programs by source hash with at least 3 states",
                "stats": st})
 
 
